@@ -40,14 +40,14 @@ TM = "optimism.TensorMath"
 def run(ctx):
     ctx.need_module(TM)
     ctx.need_module("optimism.Math")
-    tensorid.run_identities(ctx, "O1/T7-helper-identities")
-    o2(ctx)
-    eigenalg.run(ctx, "O2/T7-eigen-solver-algebra", f"{TM}:eigen_sym33_non_unit")
-    trig_table(ctx)
-    jvp_wiring(ctx, "O3/T5-custom-jvp-wiring")
-    relative_differences(ctx)
-    log_taylor(ctx)
-    denman_beavers(ctx)
+    ctx.guard(tensorid.run_identities, ctx, "O1/T7-helper-identities")
+    ctx.guard(o2, ctx)
+    ctx.guard(eigenalg.run, ctx, "O2/T7-eigen-solver-algebra", f"{TM}:eigen_sym33_non_unit")
+    ctx.guard(trig_table, ctx)
+    ctx.guard(jvp_wiring, ctx, "O3/T5-custom-jvp-wiring")
+    ctx.guard(relative_differences, ctx)
+    ctx.guard(log_taylor, ctx)
+    ctx.guard(denman_beavers, ctx)
     ctx.trust("jax.custom_jvp protocol: rule(primals, tangents) -> (primal_out, tangent_out)")
     ctx.assume("eigenvalues of arguments of log/sqrt/power are positive")
 
